@@ -119,8 +119,13 @@ def run(tier, seed):
       steps = [r.randrange(1, 5) for _ in range(n)]
       infeas = r.choice([0, 0, 0.25])
       oseed = r.randrange(1000)
+      def dump_of(d_):
+        # the state a designer would persist now: also public behaviour, and the earliest place where a component that was not
+        # restored shows (long before it changes a suggestion)
+        md_ = d_.dump()
+        return sorted((ns_.encode(), k_, v_ if isinstance(v_, str) else repr(v_)) for ns_, k_, v_ in md_.all_items() if 'timestamp' not in k_)
       try:
-        live, _, _, _ = run_designer(f, prob, steps, set(), oseed, infeas)
+        live, live_dumps, _, _ = run_designer(f, prob, steps, set(), oseed, infeas, observe=dump_of)
       except Exception as e:  # pylint: disable=broad-except
         rep.count('refused_%s_%s' % (name, type(e).__name__))
         continue
@@ -128,7 +133,7 @@ def run(tier, seed):
         rep.case({'designer': name, 'space': meta, 'steps': steps, 'restarts': sorted(rs), 'seed': sd}, True)
         rep.count('designer_' + name)
         try:
-          got, _, _, _ = run_designer(f, prob, steps, rs, oseed, infeas)
+          got, got_dumps, _, _ = run_designer(f, prob, steps, rs, oseed, infeas, observe=dump_of)
         except Exception as e:  # pylint: disable=broad-except
           viol('%s: the restarted run raised %s where the live run did not' % (name, type(e).__name__),
                {'designer': name, 'space': repr(prob.search_space)[:600], 'steps': steps, 'restarts': sorted(rs), 'seed': sd, 'error': repr(e)[:300]})
@@ -138,6 +143,13 @@ def run(tier, seed):
           viol('%s: a restarted instance makes different suggestions than the one kept alive' % name,
                {'designer': name, 'space': repr(prob.search_space)[:600], 'steps': steps, 'restarts': sorted(rs), 'seed': sd,
                 'order_seed': oseed, 'infeasible_p': infeas, 'first_differing_step': first, 'live': live[first], 'restarted': got[first]})
+          break
+        if got_dumps != live_dumps:
+          first = [i for i in range(n) if got_dumps[i] != live_dumps[i]][0]
+          diff_ = [x_ for x_ in got_dumps[first] if x_ not in live_dumps[first]][:2] + [x_ for x_ in live_dumps[first] if x_ not in got_dumps[first]][:2]
+          viol('%s: after a restart the state the designer would persist differs from that of the instance kept alive (a component was not restored)' % name,
+               {'designer': name, 'space': repr(prob.search_space)[:600], 'steps': steps, 'restarts': sorted(rs), 'seed': sd,
+                'first_differing_step': first, 'differing_entries': [[e_[0], e_[1], e_[2][:160]] for e_ in diff_]})
           break
 
   # ---------------------------------------------------------------- NSGA-II: population, phase, counter on the same history
@@ -516,6 +528,10 @@ def service_part(rep, r, quick, viol):
         allpts = [key({k: canon(v.value) for k, v in s_.parameters.items()})
                   for s_ in grid.GridSearchDesigner(sprob.search_space).suggest(volume)]
         counts = {k_: 0 for k_ in allpts}
+        if len(counts) != len(allpts):
+          # a DOUBLE range a few ulps wide puts the same value on the grid several times: points are not recognisable by value
+          rep.count('service_grid_with_repeated_values_skipped')
+          batches = []
         for bi, b in enumerate(batches):
           for x in b:
             if x not in counts:
